@@ -53,6 +53,11 @@ TREES = [
     {"one.c": "int f(int a) {\n  return a;\n}\nint g(void) {\n  return 2;\n}\n"},
     {"p/q/r.java": "class A {\n  int f() {\n    return 1;\n  }\n}\n", "p/x.py": "def h():\n    x = 1\n    return x\n", "t.ts": "function k(a: number) {\n  return a;\n}\n"},
 ]
+TREES.append({
+    "alpha.py": "def a1(x):\n    return x\n\n\ndef a2(x):\n    y = x\n    return y\n\n\ndef a3(x):\n    return x\n",
+    "beta.py": "def b1(x):\n    return x\n\n\ndef b2(x):\n    y = x\n    z = y\n    return z\n\n\ndef b3(x):\n    return x\n",
+    "pkg/gamma.js": "function g1(a) {\n  return a;\n}\nfunction g2(a) {\n  let b = a;\n  return b;\n}\n",
+})
 WRONG = [None, 1, "s", [], {}, True, 1.5]
 
 
